@@ -21,6 +21,7 @@ Definition spec_ids : list (string * list (string * Z)) := [
                       ("TotalUncompressedSize", 6); ("TotalCompressedSize", 7); ("DataPageOffset", 9);
                       ("IndexPageOffset", 10); ("DictionaryPageOffset", 11); ("Statistics", 12);
                       ("EncodingStats", 13); ("BloomFilterOffset", 14); ("BloomFilterLength", 15)]);
+  ("PageEncodingStats", [("PageType", 1); ("Encoding", 2); ("Count", 3)]);
   ("PageHeader", [("Type", 1); ("UncompressedPageSize", 2); ("CompressedPageSize", 3); ("CRC", 4);
                   ("DataPageHeader", 5); ("IndexPageHeader", 6); ("DictionaryPageHeader", 7); ("DataPageHeaderV2", 8)]);
   ("DataPageHeader", [("NumValues", 1); ("Encoding", 2); ("DefinitionLevelEncoding", 3);
